@@ -32,6 +32,8 @@ type sgen struct {
 	budget int
 	fresh  int
 	Feat   map[string]int
+	// copyForms: also generate copy() of closures (copygen.go); off for the original program sequence
+	copyForms bool
 }
 
 var spool = []string{"a", "b", "c", "d", "e", "x", "y", "n", "acc", "t"}
@@ -222,6 +224,7 @@ func (g *sgen) stmt() {
 		b2i(!deep) * 2,    // 9 for-in
 		b2i(g.fdepth < 3) * 2, // 10 iife statement mutating outer variables
 		b2i(!deep && g.loops == 0 && g.fdepth < 3) * 3, // 11 closure that outlives the (non-loop) block declaring its variable
+		b2i(g.copyForms && !deep && g.loops == 0 && g.fdepth < 3) * 5, // 12 copy() of closures over outer variables (copygen.go)
 	}
 	switch g.r.Weighted(w) {
 	case 0:
@@ -282,6 +285,8 @@ func (g *sgen) stmt() {
 		}
 	case 11:
 		g.escapeBlock()
+	case 12:
+		g.copyClosures()
 	case 10:
 		g.Feat["iife-stmt"]++
 		g.line("(func() {")
